@@ -210,6 +210,18 @@ def oracle(chk, case, B, tag, ri, phi, der):
     pg.parallel_gradient(np.full((nz, nq), cval), ri, g)
     if not (np.abs(g) <= 2.0 ** -40 * abs(cval) * unit).all():
         chk.fail('C13:constants', 'the parallel gradient of a constant is not zero', tag, expected=0.0, actual=float(np.abs(g).max()))
+    # the zero potential, written into an output array that holds an earlier result (linearity with a = b = 0; the driver
+    # re-uses parGradVals[i] every time step): the output may not depend on what the array held before
+    g0 = der.copy() + 1.0
+    pg.parallel_gradient(np.zeros((nz, nq)), ri, g0)
+    if g0.any():
+        chk.fail('C13:zero-potential', 'the parallel gradient of the zero potential, written into a used output array, is not zero', tag,
+                 expected=0.0, actual=float(np.abs(g0).max()))
+    g0 = np.full((nz, nq), 7.25)
+    pg.parallel_gradient(phi, ri, g0)
+    if not np.array_equal(g0, der):
+        chk.fail('C13:output-history', 'the result depends on the previous contents of the output array', tag,
+                 actual=float(np.abs(g0 - der).max()))
     # linearity
     a_, b_ = float(rng.uniform(-2, 2)), float(rng.uniform(-2, 2))
     p2 = rng.uniform(-1, 1, size=(nz, nq))
